@@ -730,7 +730,14 @@ pub fn av_agree(p: &AV, j: &AV) -> bool {
 }
 
 pub fn attrs_agree(p: &Attrs, j: &Attrs) -> bool {
-    p.len() == j.len() && p.iter().zip(j).all(|((k1, x), (k2, y))| k1 == k2 && av_agree(x, y))
+    // attribute order carries no meaning: compare by key (stable, so repeated keys keep their order)
+    let sorted = |a: &Attrs| -> Vec<(String, AV)> {
+        let mut v = a.clone();
+        v.sort_by(|x, y| x.0.cmp(&y.0));
+        v
+    };
+    let (p, j) = (sorted(p), sorted(j));
+    p.len() == j.len() && p.iter().zip(&j).all(|((k1, x), (k2, y))| k1 == k2 && av_agree(x, y))
 }
 
 pub fn pv_agree(p: &PV, j: &PV) -> bool {
